@@ -83,9 +83,13 @@ def run(tier, seed):
     P = families.g_prec()
     cases = []
     PN = {g.name: g for g in P}
-    if tier == 'quick': sel = [(PN[n], [3]) for n in ('p_ll', 'p_rr', 'p_eqr', 'p_none', 'p_neg', 'p_else')] + [(PN['p_perm'], [5]), (PN['p_lr'], [5])]
+    if tier == 'quick': sel = [(PN[n], [3]) for n in ('p_ll', 'p_rr', 'p_eqr', 'p_none', 'p_else')] + [(PN['p_neg'], [4]), (PN['p_perm'], [5]), (PN['p_lr'], [5])]
     else: sel = [(g, [1, 2, 3, 4, 5]) for g in P] + [(g, [2, 3, 4]) for g in families.g_rand(seed + 300, 8, want='sr')]
     cp.run_parse_property('C05', tier, seed, sel, ['accept', 'value'], '', cp.STD_OUTSIDE + ['precedence assignments outside G-prec'], cp.STD_ASSUME, validate_cf=False, finish=False, R=R, defer=cases)
+    # explicit [n] on rules with CONTEXTUAL functors, both spellings rule[n] >>= f and (rule >>= f)[n] (through context_parse)
+    from c13 import mixed_prec
+    csel = [(mixed_prec(PN['p_neg'], prefix=True), [4])] if tier == 'quick' else [(mixed_prec(PN[n], prefix=pf), [3, 4, 5]) for n in ('p_neg', 'p_expl') for pf in (True, False)]
+    cp.run_parse_property('C05', tier, seed, csel, ['accept', 'value'], '', [], [], validate_cf=False, finish=False, R=R, defer=cases, variant='ctx', ctxkind=0, tag='cx')
     ks = kernels(wd)
     kernel.run_kernels(R, ks)
     R.assumptions.append('solve_conflict / calculate_rule_* kernels: every precedence, associativity, index and the explicit [n] are solver variables (32-bit)')
